@@ -239,6 +239,7 @@ func (b *Body) checkErrSite(s errSite) errVerdict {
 				return state
 			}
 			used := false
+			usedDirect := false // used by this statement itself (not merely captured by a closure that may run later)
 			redefined := false
 			propagatedHere := false
 			ast.Inspect(n, func(m ast.Node) bool {
@@ -254,6 +255,7 @@ func (b *Body) checkErrSite(s errSite) errVerdict {
 						redefined = true
 					} else {
 						used = true
+						usedDirect = true
 						switch b.classifyUse(id) {
 						case usePropagate:
 							propagatedHere = true
@@ -276,7 +278,7 @@ func (b *Body) checkErrSite(s errSite) errVerdict {
 					}
 					used = true
 				}
-				if !used && defNon(state) && state&pend != 0 && !clobbered && b.errResultIndex() >= 0 && b.classifyReturn(r) != retFailure {
+				if !usedDirect && defNon(state) && state&pend != 0 && !clobbered && b.errResultIndex() >= 0 && b.classifyReturn(r) != retFailure {
 					// (a return of another, certainly non-nil error maps the failure: fine)
 					clobbered, clobPos = true, r.Pos()
 				}
@@ -289,7 +291,10 @@ func (b *Body) checkErrSite(s errSite) errVerdict {
 				return idle
 			}
 			if used {
-				state &^= unused | pend
+				state &^= unused
+			}
+			if usedDirect {
+				state &^= pend
 			}
 			if redefined {
 				if state&unused != 0 {
@@ -298,7 +303,7 @@ func (b *Body) checkErrSite(s errSite) errVerdict {
 						dropPos = n.Pos()
 					}
 				}
-				if defNon(state) && state&pend != 0 && !used && !clobbered {
+				if defNon(state) && state&pend != 0 && !usedDirect && !clobbered {
 					clobbered, clobPos = true, n.Pos()
 				}
 				return (state &^ (live | unused | kNil | kNon | pend)) | idle
@@ -354,6 +359,10 @@ func (b *Body) checkErrSite(s errSite) errVerdict {
 	if dropped {
 		return errVerdict{Site: s, Kind: "dropped", Pos: dropPos,
 			Detail: "the error of this call can reach a redefinition of `" + v.Name() + "` or the function exit without ever being looked at (another variable is tested, or the check was removed)"}
+	}
+	if !hasProp && diverts && b.errResultIndex() < 0 && isGoLiteralOrWorker(b) {
+		return errVerdict{Site: s, Kind: "not-surfaced", Pos: s.Call.Pos(),
+			Detail: "this goroutine has no error result: leaving it on the non-nil branch without sending, storing or reporting the error of this call makes the failure invisible to whoever collects its results"}
 	}
 	if !hasProp && !diverts {
 		return errVerdict{Site: s, Kind: "not-surfaced", Pos: s.Call.Pos(),
@@ -759,4 +768,42 @@ func classifierSentinel(info *types.Info, cond ast.Expr, v *types.Var) (string, 
 		}
 	}
 	return "", false
+}
+
+// isGoLiteralOrWorker: the body is a function literal started by a go statement.
+func isGoLiteralOrWorker(b *Body) bool {
+	if b.Lit == nil {
+		return b.P.goTargets()[b.Fn.ID]
+	}
+	found := false
+	ast.Inspect(b.Fn.Decl.Body, func(n ast.Node) bool {
+		if g, ok := n.(*ast.GoStmt); ok && ast.Unparen(g.Call.Fun) == ast.Expr(b.Lit) {
+			found = true
+		}
+		return !found
+	})
+	return found
+}
+
+// goTargets: declared functions of the repository that some go statement starts.
+func (p *Prog) goTargets() map[string]bool {
+	if p.goT != nil {
+		return p.goT
+	}
+	p.goT = map[string]bool{}
+	for _, f := range p.funcs {
+		if f.Decl.Body == nil {
+			continue
+		}
+		info := f.Info()
+		ast.Inspect(f.Decl.Body, func(n ast.Node) bool {
+			if g, ok := n.(*ast.GoStmt); ok {
+				if id := calleeID(info, g.Call); id != "" {
+					p.goT[id] = true
+				}
+			}
+			return true
+		})
+	}
+	return p.goT
 }
